@@ -57,26 +57,25 @@ Definition oid (o : option Z) : list Z := match o with Some i => [i] | None => [
 (* ids of the statements in live positions: not after a never-normal statement of their
    block and not nested in a statement so positioned.  A function body is a fresh live
    region wherever its definition stands (definitions are hoisted). *)
+Definition ids_block_with (f : bool -> stmt -> list Z) : bool -> list stmt -> list Z :=
+  fix go (lv : bool) (b : list stmt) {struct b} : list Z :=
+  match b with
+  | [] => []
+  | x :: r => f lv x ++ go (lv && negb (never_normal x)) r
+  end.
+
 Fixpoint lids (live : bool) (t : stmt) {struct t} : list Z :=
-  let blk := fix blk (lv : bool) (b : list stmt) {struct b} : list Z :=
-    match b with
-    | [] => []
-    | x :: r => lids lv x ++ blk (lv && negb (never_normal x)) r
-    end in
   (if live then oid (stmt_sid t) else []) ++
   match t with
-  | SFun _ _ _ body _ _ _ => blk true body
-  | SIf _ _ th el => blk live th ++ match el with Some e => blk live e | None => [] end
-  | SLoop _ _ body => blk live body
-  | SBlock _ body => blk live body
+  | SFun _ _ _ body _ _ _ => ids_block_with lids true body
+  | SIf _ _ th el =>
+      ids_block_with lids live th ++ match el with Some e => ids_block_with lids live e | None => [] end
+  | SLoop _ _ body => ids_block_with lids live body
+  | SBlock _ body => ids_block_with lids live body
   | _ => []
   end.
 
-Fixpoint live_ids_block (lv : bool) (b : list stmt) : list Z :=
-  match b with
-  | [] => []
-  | x :: r => lids lv x ++ live_ids_block (lv && negb (never_normal x)) r
-  end.
+Definition live_ids_block (lv : bool) (b : list stmt) : list Z := ids_block_with lids lv b.
 
 Definition prunable_unreachable (prog : list stmt) (i : Z) : bool :=
   negb (memz i (live_ids_block true prog)).
@@ -219,51 +218,44 @@ Definition pruned_ok (c : pcfg) (t : stmt) : bool :=
 
 Definition is_fun (t : stmt) : bool := match t with SFun _ _ _ _ _ _ _ => true | _ => false end.
 
+Definition item_ok_with (sok : stmt -> bool) (c : pcfg) (live : bool) (x : stmt) : bool :=
+  (if is_fun x then sok x else true)
+  && (if live then
+        if in_plan_stmt (c_p2 c) (stmt_sid x) then true
+        else if in_plan_stmt (c_p1 c) (stmt_sid x) then pruned_ok c x
+        else sok x
+      else true).
+
+Definition next_live (c : pcfg) (live : bool) (x : stmt) : bool :=
+  live && negb (nn_p (c_p2 c) x && negb (in_plan_stmt (c_p2 c) (stmt_sid x))).
+
+Definition block_ok_with (sok : stmt -> bool) (c : pcfg) : bool -> list stmt -> bool :=
+  fix go (live : bool) (b : list stmt) {struct b} : bool :=
+  match b with
+  | [] => true
+  | x :: r => item_ok_with sok c live x && go (next_live c live x) r
+  end.
+
 Fixpoint stmt_ok (c : pcfg) (t : stmt) {struct t} : bool :=
-  let blk := fix blk (live : bool) (b : list stmt) {struct b} : bool :=
-    match b with
-    | [] => true
-    | x :: r =>
-        (if is_fun x then stmt_ok c x else true)
-        && (if live then
-              if in_plan_stmt (c_p2 c) (stmt_sid x) then true
-              else if in_plan_stmt (c_p1 c) (stmt_sid x) then pruned_ok c x
-              else stmt_ok c x
-            else true)
-        && blk (live && negb (nn_p (c_p2 c) x && negb (in_plan_stmt (c_p2 c) (stmt_sid x)))) r
-    end in
   match t with
   | SFun _ _ ps body fid ls _ =>
-      if fn_live c fid then blk true body && params_ok c ls (length ps) else true
+      if fn_live c fid then block_ok_with (stmt_ok c) c true body && params_ok c ls (length ps) else true
   | SMake _ _ l e => var_ok c l && expr_ok c e
   | SSet _ _ l e => var_ok c l && expr_ok c e
   | SSetIdx _ tg e => expr_ok c tg && expr_ok c e
   | SIf _ cnd th el =>
-      expr_ok c cnd && blk true th && match el with Some b => blk true b | None => true end
-  | SLoop _ cnd body => expr_ok c cnd && blk true body
-  | SBlock _ body => blk true body
+      expr_ok c cnd && block_ok_with (stmt_ok c) c true th &&
+      match el with Some b => block_ok_with (stmt_ok c) c true b | None => true end
+  | SLoop _ cnd body => expr_ok c cnd && block_ok_with (stmt_ok c) c true body
+  | SBlock _ body => block_ok_with (stmt_ok c) c true body
   | SRet _ (Some e) => expr_ok c e
   | SRet _ None => true
   | SBreak _ | SNext _ => true
   | SExpr _ e => expr_ok c e
   end.
 
-Definition item_ok (c : pcfg) (live : bool) (x : stmt) : bool :=
-  (if is_fun x then stmt_ok c x else true)
-  && (if live then
-        if in_plan_stmt (c_p2 c) (stmt_sid x) then true
-        else if in_plan_stmt (c_p1 c) (stmt_sid x) then pruned_ok c x
-        else stmt_ok c x
-      else true).
-
-Definition next_live (c : pcfg) (live : bool) (x : stmt) : bool :=
-  live && negb (nn_p (c_p2 c) x && negb (in_plan_stmt (c_p2 c) (stmt_sid x))).
-
-Fixpoint block_ok (c : pcfg) (live : bool) (b : list stmt) {struct b} : bool :=
-  match b with
-  | [] => true
-  | x :: r => item_ok c live x && block_ok c (next_live c live x) r
-  end.
+Definition item_ok (c : pcfg) := item_ok_with (stmt_ok c) c.
+Definition block_ok (c : pcfg) := block_ok_with (stmt_ok c) c.
 
 Definition cfg_ok (c : pcfg) : bool :=
   forallb (fun i => in_plan_stmt (c_p1 c) (Some i)) (stmts_of (c_p2 c)) &&
@@ -274,6 +266,19 @@ Definition cfg_ok (c : pcfg) : bool :=
 (* the hypothesis of the soundness theorem *)
 Definition covered_ok (c : pcfg) (prog : list stmt) : bool :=
   cfg_ok c && block_ok c true prog.
+
+(* ---------- the configurations of the three class theorems ---------- *)
+Definition ucfg (ss : list Z) : pcfg :=
+  {| c_p1 := Some (ss, []); c_p2 := None; c_dead := []; c_live := []; c_all := true; c_nr := false |}.
+
+Definition fcfg (fs live : list Z) : pcfg :=
+  {| c_p1 := Some ([], fs); c_p2 := None; c_dead := []; c_live := live; c_all := false; c_nr := false |}.
+(* `live` is closed under calls from live code and contains none of fs *)
+Definition unused_fns_ok (prog : list stmt) (fs live : list Z) : bool := covered_ok (fcfg fs live) prog.
+
+Definition ncfg (ss dead : list Z) : pcfg :=
+  {| c_p1 := Some (ss, []); c_p2 := None; c_dead := dead; c_live := []; c_all := true; c_nr := true |}.
+Definition never_read_ok (prog : list stmt) (ss dead : list Z) : bool := covered_ok (ncfg ss dead) prog.
 
 (* endings of the residual run that are excluded when never-read entries are dropped:
    fuel exhaustion (the dropped right-hand side costs fuel) and the three "variable is not
